@@ -51,6 +51,9 @@ def parse_contracts(path):
                 sec = {"kind": d, "text": []}; cur.append(sec)
             elif d in ("loop", "loop?"):
                 sec = {"kind": "loop", "n": int(rest), "text": [], "optional": d.endswith("?")}; cur.append(sec)
+            elif d in ("endloop", "endloop?"):
+                # ghost text placed at the end of the body of loop #N (just before its closing brace)
+                sec = {"kind": "endloop", "n": int(rest), "text": [], "optional": d.endswith("?")}; cur.append(sec)
             elif d in ("afterloop", "afterloop?"):
                 # ghost text placed right after the closing brace of loop #N (the first statement after the loop)
                 sec = {"kind": "afterloop", "n": int(rest), "text": [], "optional": d.endswith("?")}; cur.append(sec)
@@ -286,13 +289,14 @@ def extract(repo, spec, contracts, mode, mutate=None):
                 if TOLERANT["on"]: ex.lost.append(f"loop #{s['n']}"); continue
                 raise UnitError(f"lost anchor: {ex.id} has no loop #{s['n']}")
             ins.append((ls[s["n"] - 1], order, text))
-        elif s["kind"] == "afterloop":
+        elif s["kind"] in ("afterloop", "endloop"):
             ls = _loops(body, bo + 1, len(body))
             if s["n"] > len(ls):
                 if s.get("optional"): continue
                 if TOLERANT["on"]: ex.lost.append(f"loop #{s['n']}"); continue
                 raise UnitError(f"lost anchor: {ex.id} has no loop #{s['n']}")
-            ins.append((match_close(body, ls[s["n"] - 1]) + 1, order, text))
+            e = match_close(body, ls[s["n"] - 1])
+            ins.append((e + 1 if s["kind"] == "afterloop" else e, order, text))
         else:
             seq = [t.text for t in tokenize(s["anchor"])[0]]
             i = _find_seq(body, bo + 1, len(body), seq, s["n"])
